@@ -64,6 +64,9 @@ type hsResult struct {
 	rtSeen                       [2]bool
 	rtAfterHs                    [2]time.Duration
 	synTx                        [2]int
+	synackDropped                int // SYNACK packets the transport lost / delivered
+	synackDelivered              int
+	srvMsgArrived                bool // the message the server sent first reached the client's application
 }
 
 func runHandshakeScenario(t *testing.T, l *evlog, q *oracle, cfg simCfg, p hsParams) hsResult {
@@ -120,6 +123,13 @@ func runHandshakeScenario(t *testing.T, l *evlog, q *oracle, cfg simCfg, p hsPar
 					fmt.Sscanf(what, "wait%d", &ms)
 					s.advance(time.Duration(ms) * time.Millisecond)
 					what = "deliver"
+				}
+				if h := s.head(x); x == 0 && len(h) == 1 && h[0] == 6 {
+					if what == "drop" {
+						res.synackDropped++
+					} else {
+						res.synackDelivered++
+					}
 				}
 				s.op(x, what)
 				moved = true
@@ -251,6 +261,7 @@ func runHandshakeScenario(t *testing.T, l *evlog, q *oracle, cfg simCfg, p hsPar
 		}
 		res.clientErr = res.hsRet[0] && s.hsErr[0] != nil
 		res.delivered = len(s.recvMsgs[1]) > 0
+		res.srvMsgArrived = len(s.recvMsgs[0]) > 0
 		// a connection that was torn down is a visible failure: the client's calls return errors
 		if res.hsOK[0] && s.conn[0] != nil && !res.delivered {
 			if sb, _ := s.busy(0); !sb {
@@ -353,8 +364,10 @@ func TestGenC10(t *testing.T) {
 				q.stat("handshakes_with_retransmitted_syn", 1)
 			}
 		}
-		// convergence: transport reliable for > 100 s, client active (data or keepalive)
-		if p.sendData || cfg.ping > 0 {
+		// convergence: transport reliable for > 100 s. The client's application may be one that only receives (the
+		// server is to speak first) over a connection without keepalive: then nothing is transmitted after the
+		// handshake unless the handshake itself retries
+		{
 			serverErr := res.hsRet[1] && !res.hsOK[1]
 			// the server's connection was torn down after its handshake (a stale FIN, or the real SYN arriving in
 			// the data phase of a handshake that stale packets had completed): its calls fail, which is the error
@@ -369,7 +382,8 @@ func TestGenC10(t *testing.T) {
 					serverClosedVisibly = true
 				}
 			}
-			conv := (res.hsOK[0] && res.hsOK[1] && (res.delivered || !p.sendData)) || res.clientErr || res.closedVisibly || serverErr || serverClosedVisibly
+			conv := (res.hsOK[0] && res.hsOK[1] && (res.delivered || !p.sendData) && (p.sendData || !p.serverSendsFirst || res.srvMsgArrived)) ||
+				res.clientErr || res.closedVisibly || serverErr || serverClosedVisibly
 			st := func(ret, ok bool) string {
 				if !ret {
 					return "pending"
@@ -391,6 +405,16 @@ func TestGenC10(t *testing.T) {
 			}
 			key := fmt.Sprintf("c10:no-convergence:client=%s,server=%s,keepalive=%s,stale-syn-to-client=%s",
 				st(res.hsRet[0], res.hsOK[0]), st(res.hsRet[1], res.hsOK[1]), ka, staleSynToClient)
+			if !p.sendData && cfg.ping == 0 {
+				sa := "none"
+				if res.synackDelivered > 0 {
+					sa = "delivered"
+				} else if res.synackDropped > 0 {
+					sa = "lost"
+				}
+				key += ",client-app=silent,synack=" + sa
+				q.stat("convergence_checked_with_a_silent_client", 1)
+			}
 			q.check(conv, key, desc)
 		}
 	}
@@ -440,6 +464,16 @@ func TestGenC10(t *testing.T) {
 				p := hsParams{class: "handshake-loss-only", pattern: pat, sendData: true, serverSendsFirst: n == 20}
 				check(cfg, p, runHandshakeScenario(t, l, q, cfg, p), false)
 			}
+		}
+	}
+	// (a4) a client whose application only receives (the server is to speak first), no keepalive: every
+	// deliver / duplicate / drop pattern over the client's first three packets, the first echo delivered or lost
+	for a := 0; a < 27; a++ {
+		for _, echo := range []string{"deliver", "drop"} {
+			pat := [2][]string{{opsAll[a%3], opsAll[a/3%3], opsAll[a/9]}, {echo}}
+			cfg := mk([]int{1, 3, 20}[a%3], false)
+			p := hsParams{class: "silent-client", pattern: pat, sendData: false, serverSendsFirst: true}
+			check(cfg, p, runHandshakeScenario(t, l, q, cfg, p), false)
 		}
 	}
 	// (b) all client window sizes
